@@ -286,5 +286,41 @@ PROPS["C08"] = {
     "legs": [plain("known", "tree", "TestKnownF7"), rapid("tree", "tree", "TestTree", 2000, 40000, shards=(2, 12))],
 }
 
+SCHED_ASSUME = [
+    "package actor is compiled from a copy rewritten at check time from /repo/actor/*.go (imports of sync/atomic and the ring buffer redirected to yielding shims, `go` statements of inbox.go turned into managed threads); "
+    "only one managed thread runs at a time, so every execution is a sequentially consistent interleaving at the granularity of the inbox's atomic operations and ring-buffer calls",
+    "Go-memory-model reorderings below that granularity are not explored",
+]
+
+PROPS["C02"] = {
+    "id": "C02", "level": "exploration", "uses_vsched": True,
+    "rule": "the harness owns the scheduler (vsched).  Inbox level: 1..3 sender threads pushing 1..3 messages each into a real Inbox of initial size 1..4 while another thread calls Start (or after Start has returned); "
+            "the schedule is a generated list of choices (<= 200) or, in the DFS leg, every schedule with <= 2 (thorough: 3) preemptions of 6 fixed configurations.  The recording Processer "
+            "counts active Invoke calls around two yields: more than one at a time, or a panic on any thread, is the violation.  Engine level: Spawn, 1..2 sender threads issuing sends, panicking "
+            "sends, Poison and Stop under generated schedules; every Receive (lifecycle messages and restarts included) increments/decrements a counter around a yield.  "
+            "Non-trivial = the trace has >= 2 context switches and >= 2 threads executed a CAS on procStatus (engine level: additionally a pill or a restart).  Distinct = configuration + consumed schedule.",
+    "technique": "schedule-owning property testing: generated interleavings (rapid) and preemption-bounded exhaustive enumeration of a real Inbox / Engine under a cooperative scheduler injected at build time",
+    "level_text": "Generated-schedule search plus complete enumeration of all schedules with a bounded number of preemptions for small configurations; the oracle is an overlap counter.",
+    "level_note": "sequentially consistent interleavings of the rewritten code only; trusts the rewriter (imports and go statements) and vsched",
+    "assumptions": SCHED_ASSUME,
+    "legs": [rapid("rand", "sched", "TestSerialRandom", 20000, 300000, shards=(2, 12), flavour="sched"),
+             plain("dfs", "sched", "TestSerialDFS", flavour="sched"),
+             rapid("engine", "sched", "TestSerialEngine", 4000, 60000, shards=(2, 12), flavour="sched")],
+}
+
+PROPS["C03"] = {
+    "id": "C03", "level": "exploration", "uses_vsched": True,
+    "rule": "the harness owns the scheduler (vsched): 1..3 sender threads pushing 1..3 messages each into a real Inbox of initial size 1..4 while another thread calls Start (or after Start has returned), under a generated "
+            "schedule (<= 200 choices) or every schedule with <= 2 (thorough: 3) preemptions of 6 fixed configurations.  'No runnable thread' is a fact under this scheduler, not a timeout: at that "
+            "point every accepted message must have been invoked.  Non-trivial = a sender completed a push after a worker's empty PopN and before that worker's running->idle CAS executed "
+            "(the lost-wake-up window), or completed a push before Start published 'idle'.  Distinct = configuration + consumed schedule.",
+    "technique": "schedule-owning property testing: liveness decided as safety at quiescence under a cooperative scheduler injected at build time; random schedules (rapid) + preemption-bounded enumeration",
+    "level_text": "Generated-schedule search plus complete enumeration of all schedules with a bounded number of preemptions for small configurations; quiescence is exact because the harness owns every thread.",
+    "level_note": "sequentially consistent interleavings of the rewritten code only; trusts the rewriter and vsched",
+    "assumptions": SCHED_ASSUME,
+    "legs": [rapid("rand", "sched", "TestWakeupRandom", 20000, 300000, shards=(2, 12), flavour="sched"),
+             plain("dfs", "sched", "TestWakeupDFS", flavour="sched")],
+}
+
 # reasons for properties that are not claimed (kept current by hand)
 NA_REASONS = {}
